@@ -284,9 +284,45 @@ def rule_support_default(repo: Repo) -> List[Ob]:
             if cls.name == "FunctionalAssignment" and mname == "get_support":
                 # returns the range of the function as an interval: the typer refuses intervals, nothing to add
                 rets = [r.value for r in walk_no_nested(m.node) if isinstance(r, ast.Return)]
-                ok = all(isinstance(r, ast.Set) and all(isinstance(e, ast.Tuple) for e in r.elts) for r in rets) and bool(rets)
-                obs.append(Ob("A4-support-default", f"{cls.relpath}::{cls.name}.get_support::interval", cls.relpath, m.node.lineno, m.qualname, ok,
-                              "function ranges are reported as intervals (never typed finite)" if ok else "functional support is not an interval set"))
+                fdefs = Defs(m.node, selfn)
+
+                def elem_kinds(e, depth=0) -> List[Optional[bool]]:
+                    """True: a (lower, upper) tuple; False: a plain value; None: unknown"""
+                    if depth > 4:
+                        return [None]
+                    if isinstance(e, ast.Tuple):
+                        return [len(e.elts) == 2]
+                    if isinstance(e, ast.Name) and e.id in fdefs.defs and e.id not in fdefs.params:
+                        out = []
+                        for v in fdefs.defs[e.id]:
+                            out += elem_kinds(v, depth + 1) if isinstance(v, ast.expr) else [None]
+                        return out
+                    if isinstance(e, ast.Subscript):
+                        tab = e.value
+                        if isinstance(tab, ast.Name) and tab.id in fdefs.defs:
+                            vals = [v for v in fdefs.defs[tab.id] if isinstance(v, ast.Dict)]
+                            if len(vals) == 1:
+                                return [k for v in vals[0].values for k in elem_kinds(v, depth + 1)]
+                        return [None]
+                    if isinstance(e, ast.IfExp):
+                        return elem_kinds(e.body, depth + 1) + elem_kinds(e.orelse, depth + 1)
+                    if isinstance(e, (ast.Constant, ast.Attribute, ast.BinOp, ast.UnaryOp)) or (isinstance(e, ast.Call) and call_name(e) in ("sympify", "One", "Zero", "Integer")):
+                        return [False]
+                    return [None]
+                kinds = []
+                for r in rets:
+                    if isinstance(r, ast.Set):
+                        for e in r.elts:
+                            kinds += elem_kinds(e)
+                    else:
+                        kinds.append(None)
+                key_i = f"{cls.relpath}::{cls.name}.get_support::interval"
+                if False in kinds:
+                    obs.append(Ob("A4-support-default", key_i, cls.relpath, m.node.lineno, m.qualname, False, "functional support contains plain values instead of (lower, upper) intervals: the variable looks finitely valued"))
+                elif not kinds or None in kinds:
+                    obs.append(inconclusive("A4-support-default", key_i, cls.relpath, m.node.lineno, m.qualname, "functional support expression not recognised"))
+                else:
+                    obs.append(Ob("A4-support-default", key_i, cls.relpath, m.node.lineno, m.qualname, True, "function ranges are reported as intervals (never typed finite)"))
                 n += 1
                 continue
             if not adds:
@@ -297,7 +333,69 @@ def rule_support_default(repo: Repo) -> List[Ob]:
             c = cfg_of(m.node)
             sink = node_for(c, adds[0])
             tests = controlling_tests(c, sink)
-            # acceptable: unconditional, or skipped only when the condition is implied by the loop guard (or, for free symbols, with_default)
+            if mname == "get_support":
+                # Necessary condition (after the repair of F16): whenever the default is *another* variable (a renamed
+                # intermediate version falls back to the previous version), it belongs to the value set.  Skipping the
+                # default is harmless only when it is the variable itself (its values are the initial value and this
+                # assignment's own right-hand sides).  Decided by a truth table over the atoms of the controlling tests.
+                key = f"{cls.relpath}::{cls.name}.{mname}::default"
+                atoms: List[str] = []
+
+                def atom(name):
+                    if name not in atoms:
+                        atoms.append(name)
+                    return name
+
+                def ev(e, env, depth=0):
+                    if isinstance(e, ast.UnaryOp) and isinstance(e.op, ast.Not):
+                        return not ev(e.operand, env, depth)
+                    if isinstance(e, ast.BoolOp):
+                        vals = [ev(v, env, depth) for v in e.values]
+                        return all(vals) if isinstance(e.op, ast.And) else any(vals)
+                    if isinstance(e, ast.Compare) and len(e.ops) == 1 and isinstance(e.ops[0], (ast.Eq, ast.NotEq, ast.Is, ast.IsNot)):
+                        sides = {src(e.left), src(e.comparators[0])}
+                        if sides == {f"{selfn}.default", f"{selfn}.variable"}:
+                            v = env[atom("OTHER")]     # OTHER: default is another variable
+                            return v if isinstance(e.ops[0], (ast.NotEq, ast.IsNot)) else not v
+                    if isinstance(e, ast.Call) and isinstance(e.func, ast.Attribute) and isinstance(e.func.value, ast.Name) and e.func.value.id == selfn \
+                            and not e.args and depth < 3:
+                        h = cls.find_method(e.func.attr)
+                        if h is not None:
+                            rets = [r.value for r in walk_no_nested(h.node) if isinstance(r, ast.Return) and r.value is not None]
+                            if len(rets) == 1 and h.params() and h.params()[0] == selfn:
+                                return ev(rets[0], env, depth + 1)
+                    return env[atom("U:" + src(e))]
+
+                def added(env):
+                    return all(bool(ev(t.ast, env)) == bool(reach) for t, reach in tests)
+                # discover atoms
+                class _Any(dict):
+                    def __missing__(self, k):
+                        return False
+                added(_Any())
+                for _ in range(3):
+                    for bits in range(2 ** len(atoms)):
+                        added(_Any({a: bool(bits >> i & 1) for i, a in enumerate(atoms)}))
+                unknown_atoms = [a for a in atoms if a.startswith("U:") and "is_implied_by_loop_guard" not in a]
+                skipped = []
+                for bits in range(2 ** len(atoms)):
+                    env = _Any({a: bool(bits >> i & 1) for i, a in enumerate(atoms)})
+                    env["OTHER"] = True
+                    if not added(env):
+                        skipped.append(dict(env))
+                if not skipped:
+                    obs.append(Ob("A4-support-default", key, cls.relpath, adds[0].lineno, m.qualname, True,
+                                  "the default is part of the value set whenever it is another variable (it is skipped at most for the variable itself)"))
+                elif unknown_atoms:
+                    obs.append(inconclusive("A4-support-default", key, cls.relpath, adds[0].lineno, m.qualname,
+                                            f"tests {unknown_atoms} not recognised"))
+                else:
+                    conds = " and ".join(("" if reach else "not ") + "(" + src(t.ast) + ")" for t, reach in tests)
+                    obs.append(Ob("A4-support-default", key, cls.relpath, adds[0].lineno, m.qualname, False,
+                                  f"the default variable is included only under `{conds}`: it is skipped although it may be another variable "
+                                  "(a renamed intermediate version takes over the previous version's value while the guard is false)"))
+                n += 1
+                continue
             bad = []
             unknown = []
             for t, reach in tests:
@@ -333,16 +431,31 @@ def rule_support_default(repo: Repo) -> List[Ob]:
 def mut_support_default(repo: Repo) -> List[Mutant]:
     out = []
 
-    def invert(tree):
+    def drop_own(tree):
         fn = find_def(tree, "PolyAssignment.get_support")
         for n in ast.walk(fn):
-            if isinstance(n, ast.If) and isinstance(n.test, ast.UnaryOp):
-                n.test = n.test.operand
-                return True
+            if isinstance(n, ast.If) and isinstance(n.test, ast.BoolOp) and isinstance(n.test.op, ast.Or):
+                keep = [v for v in n.test.values if "is_implied_by_loop_guard" in src(v)]
+                if len(keep) == 1:
+                    n.test = keep[0]
+                    return True
         return False
-    ov = mutate_module(repo, "program/assignment/poly_assignment.py", invert)
+    ov = mutate_module(repo, "program/assignment/poly_assignment.py", drop_own)
     if ov:
-        out.append(Mutant("default-only-when-implied", ov, "fire", "PolyAssignment.get_support::default", control=True))
+        out.append(Mutant("default-skipped-under-guard-for-renamed-versions", ov, "fire", "PolyAssignment.get_support::default", control=True))
+
+    def only_own(tree):
+        fn = find_def(tree, "PolyAssignment.get_support")
+        for n in ast.walk(fn):
+            if isinstance(n, ast.If) and isinstance(n.test, ast.BoolOp) and isinstance(n.test.op, ast.Or):
+                keep = [v for v in n.test.values if "is_implied_by_loop_guard" not in src(v)]
+                if len(keep) == 1:
+                    n.test = keep[0]
+                    return True
+        return False
+    ov = mutate_module(repo, "program/assignment/poly_assignment.py", only_own)
+    if ov:
+        out.append(Mutant("benign-default-skipped-only-for-the-variable-itself", ov, "silent"))
 
     def never(tree):
         fn = find_def(tree, "DistAssignment.get_support")
@@ -365,19 +478,32 @@ def rule_float_conversion(repo: Repo) -> List[Ob]:
     ok = False
     extra = ""
     if len(rets) == 1:
-        e = rets[0]
+        from ..shape import resolve_alias
+        fdefs0 = Defs(f.node, None)
+        e = resolve_alias(rets[0], fdefs0)
         # value-preserving wrappers around the exact conversion
         while isinstance(e, ast.Call) and isinstance(e.func, ast.Name) and e.func.id in ("sympy2symengine", "sympify", "S", "Rational") and len(e.args) == 1 \
-                and not (e.func.id == "Rational" and isinstance(e.args[0], ast.Call) and call_name(e.args[0]) == "str"):
-            e = e.args[0]
+                and not (e.func.id == "Rational" and isinstance(resolve_alias(e.args[0], fdefs0), ast.Call) and call_name(resolve_alias(e.args[0], fdefs0)) == "str"):
+            e = resolve_alias(e.args[0], fdefs0)
+        inner = resolve_alias(e.args[0], fdefs0) if isinstance(e, ast.Call) and len(e.args) == 1 else None
         ok = isinstance(e, ast.Call) and isinstance(e.func, ast.Name) and e.func.id == "Rational" and len(e.args) == 1 and not e.keywords \
-            and isinstance(e.args[0], ast.Call) and call_name(e.args[0]) == "str" and len(e.args[0].args) == 1 \
-            and isinstance(e.args[0].args[0], ast.Name) and e.args[0].args[0].id == f.params()[0]
+            and isinstance(inner, ast.Call) and call_name(inner) == "str" and len(inner.args) == 1 \
+            and isinstance(inner.args[0], ast.Name) and inner.args[0].id == f.params()[0]
         if not ok:
             extra = f" (returns `{src(rets[0])[:70]}`)"
-    obs.append(Ob("E-float", "utils/expressions.py::float_to_rational::decimal-text", f.relpath, f.node.lineno, f.qualname, ok,
-                  "float literals are converted through their decimal text and nothing else: 0.1 becomes exactly 1/10" if ok else
-                  "float_to_rational is not exactly Rational(str(x)): the literal is rounded or read as its binary expansion" + extra))
+    if not ok:
+        names = {call_name(c) for c in walk_no_nested(f.node) if isinstance(c, ast.Call)}
+        direct = any(isinstance(c, ast.Call) and call_name(c) in ("Rational", "Fraction", "nsimplify") and c.args and isinstance(c.args[0], ast.Name) and c.args[0].id == f.params()[0]
+                     for c in walk_no_nested(f.node))
+        lossy = names & {"round", "limit_denominator", "nsimplify", "float", "N", "evalf"}
+        if not direct and not lossy:
+            obs.append(inconclusive("E-float", "utils/expressions.py::float_to_rational::decimal-text", f.relpath, f.node.lineno, f.qualname,
+                                    "conversion expression not recognised" + extra))
+            ok = None
+    if ok is not None:
+      obs.append(Ob("E-float", "utils/expressions.py::float_to_rational::decimal-text", f.relpath, f.node.lineno, f.qualname, ok,
+                    "float literals are converted through their decimal text and nothing else: 0.1 becomes exactly 1/10" if ok else
+                    "float_to_rational is not exactly Rational(str(x)): the literal is rounded or read as its binary expansion" + extra))
     # Distribution.__init__ and PolyAssignment.__init__ route every Float through it
     sites = [("program/distribution/distribution.py", "Distribution.__init__", ["set_parameters"], "parameters"),
              ("program/assignment/poly_assignment.py", "PolyAssignment.__init__", ["polynomials", "probabilities"], None)]
@@ -413,6 +539,9 @@ def rule_float_conversion(repo: Repo) -> List[Ob]:
                         h = (f.cls.find_method(nm) if f.cls else None) or next((g for g in repo.functions if g.module is f.module and g.cls is None and g.name == nm), None)
                         if h is not None:
                             helpers.append(h)
+                from ..shape import helper_calls
+                for h in list(helpers):
+                    helpers += [hh for hh, _, _ in helper_calls(repo, h, depth=2) if hh not in helpers]
                 for h in helpers:
                     hc = cfg_of(h.node)
                     for cv in _calls(h.node, "float_to_rational"):
@@ -734,7 +863,9 @@ def rule_support_kind(repo: Repo) -> List[Ob]:
         rets = [r.value for r in walk_no_nested(sup.node) if isinstance(r, ast.Return)]
         key = f"{cls.relpath}::{cls.name}.get_support::kind"
         if discrete:
-            bad = [r for r in rets if any(isinstance(x, ast.Tuple) for x in ast.walk(r))]
+            def _elems(r):
+                return r.elts if isinstance(r, ast.Set) else [r.elt] if isinstance(r, (ast.SetComp, ast.ListComp, ast.GeneratorExp)) else [r]
+            bad = [r for r in rets if any(isinstance(x, ast.Tuple) and isinstance(x.ctx, ast.Load) for e in _elems(r) for x in ast.walk(e))]
             obs.append(Ob("A4-support-kind", key, cls.relpath, sup.node.lineno, sup.qualname, not bad,
                           "discrete family: support is an enumeration of values" if not bad else "a discrete family reports an interval"))
             continue
